@@ -23,6 +23,16 @@ EID_ALPH = [0, 1, 2, 3, 5, 7, "x", "y"]
 ATTR_NAMES = ["color", "w", "weight", "tag", "label", "name"]
 
 kinds = st.sampled_from(sorted(NODE_KINDS))
+# label kinds for networks that are built edge by edge (not through the format-sniffing bulk adders): also
+# mixed int/str labels, floats (integral and not) - legitimate hashable node IDs
+SPEC_KINDS = dict(NODE_KINDS)
+SPEC_KINDS["mixed"] = [0, "a", 2, "b", 10, "c", -1]
+SPEC_KINDS["float"] = [0.0, 1.5, 2.0, -3.0, 10.0, 0.25, 7.0]
+spec_kinds = st.sampled_from(sorted(SPEC_KINDS))
+# mixed int/str labels hit the documented ambiguity of the bulk formats ("members cannot be strings"; a str first
+# member followed by a non-str is parsed as (members, id)), also inside library functions that add in bulk
+# (from_hyperedge_list, SimplicialComplex(...)): only checks that never go through a bulk adder use them
+spec_kinds_unmixed = st.sampled_from(sorted(k for k in SPEC_KINDS if k != "mixed"))
 
 
 def node_of(kind):
@@ -412,10 +422,11 @@ def net_spec(
     min_edges=0,
     orderable_ids=False,
     tuples=False,
+    wide_labels=False,
 ):
     cls = cls or draw(st.sampled_from(["H", "DH", "SC"]))
-    kind = kind or draw(kinds)
-    alph = NODE_KINDS[kind]
+    kind = kind or draw((spec_kinds if wide_labels == "mixed" else spec_kinds_unmixed) if wide_labels else kinds)
+    alph = SPEC_KINDS[kind]
     a = attrs(nested=nested, tuples=tuples) if with_attrs else st.just({})
     # isolated / pre-inserted nodes in a drawn order
     pre = draw(st.lists(st.sampled_from(alph), max_size=4, unique=True))
